@@ -604,6 +604,13 @@ Proof.
         [apply same_ihr_refl | lia | apply same_rrs_setl; repeat split; (left; reflexivity) || (right; reflexivity) | | intros r' _ _ _; cnt3].
       intros f Hf. simpl in Hf. destruct Hf as [<-|Hf]; [right | left; right; rewrite app_nil_r in Hf; exact Hf].
       simpl. rewrite length_setl. intros Hr. rewrite nth_setl, Nat.eqb_refl. apply Nat.ltb_lt in Hr. rewrite Hr. reflexivity.
+  - (* FOutAdd *)
+    destruct (Nat.ltb n (length (s_nodes s))); [|discriminate]. unfold g_add_out_released in H. inversion H; subst; clear H. simpl.
+    eapply armed_transfer; [ | | | | | exact Inv]; [same_ihr_tac | len_tac | apply same_rrs_refl | | intros r' _ _ _; cnt3].
+    intros f Hf. rewrite ?in_app_iff in Hf. destruct Hf as [Hf|[Hf|Hf]]; [left; right; apply in_app_iff; tauto | left; right; apply in_app_iff; tauto |].
+    right. destruct (n_inv (getn (s_nodes s) n)), (is_nil (n_out (getn (s_nodes s) n))); simpl in Hf;
+      repeat (destruct Hf as [<-|Hf]); try contradiction; exact I.
+  - (* FPhInv *) inversion H; subst; clear H. armed_leaf Inv.
 Qed.
 
 Lemma exhausted_runish : forall r f, exhausted f = true -> runish r f = false.
@@ -639,6 +646,10 @@ Proof.
   - simpl in H. destruct (Nat.eqb (n_timer (getN s n)) 1); [|discriminate]. inversion H; subst; clear H.
     rewrite frames_spawn. unfold all_frames in *. simpl.
     eapply armed_transfer; [ | | | | | exact Inv]; [unfold getN; same_ihr_tac | len_tac | apply same_rrs_refl | | intros r _ _ _; rewrite count_app; lia].
+    intros f Hf. apply in_app_iff in Hf. destruct Hf as [Hf|[<-|[]]]; [left; exact Hf | right; exact I].
+  - simpl in H. destruct (Nat.ltb slot (length (s_slots s))); [|discriminate]. inversion H; subst; clear H.
+    rewrite frames_spawn. unfold all_frames in *. simpl.
+    eapply armed_transfer; [ | | | | | exact Inv]; [apply same_ihr_refl | lia | apply same_rrs_refl | | intros r' _ _ _; rewrite count_app; lia].
     intros f Hf. apply in_app_iff in Hf. destruct Hf as [Hf|[<-|[]]]; [left; exact Hf | right; exact I].
 Qed.
 
